@@ -231,6 +231,27 @@ func (g *Gen) doBuiltin(st *BState, in ssa.Instruction, c *ssa.CallCommon, v ssa
 	case "copy":
 		g.doCopy(st, in, c, v)
 	case "delete":
+		if g.con != nil && len(g.con.Covers) > 0 {
+			// covers clauses may name a delete(m, k) as delete#N (N by source order)
+			n, k := 0, 0
+			var ps []token.Pos
+			for _, b := range g.fn.Blocks {
+				for _, x := range b.Instrs {
+					if ci, ok := x.(ssa.CallInstruction); ok {
+						if bi, ok := ci.Common().Value.(*ssa.Builtin); ok && bi.Name() == "delete" {
+							ps = append(ps, x.Pos())
+						}
+					}
+				}
+			}
+			for _, p := range ps {
+				if p < in.Pos() {
+					k++
+				}
+			}
+			n = k + 1
+			g.noteSite(fmt.Sprintf("delete#%d", n), st, in, "")
+		}
 		mt := c.Args[0].Type().Underlying().(*types.Map)
 		m, k := g.val(c.Args[0]), g.val(c.Args[1])
 		dom, _, ln := g.mapRegions(mt)
@@ -811,6 +832,8 @@ func (g *Gen) doInvoke(st *BState, in ssa.Instruction, c *ssa.CallCommon, v ssa.
 	for i := 0; i < sig.Results().Len(); i++ {
 		rterms = append(rterms, g.fresh(fmt.Sprintf("r_%s_%d", c.Method.Name(), i), sortOf(sig.Results().At(i).Type())))
 	}
+	preHeap := st.heap.clone()
+	nBefore := len(g.calls)
 	var guards []string
 	for _, im := range impls {
 		rt := im.Signature.Recv().Type()
@@ -838,6 +861,7 @@ func (g *Gen) doInvoke(st *BState, in ssa.Instruction, c *ssa.CallCommon, v ssa.
 		}
 	}
 	g.assume(st, "(or "+strings.Join(guards, " ")+")")
+	g.joinedRecord(st, nBefore, "(interface)."+c.Method.Name(), preHeap, rterms, sig)
 	if v != nil {
 		switch len(rterms) {
 		case 0:
@@ -847,6 +871,21 @@ func (g *Gen) doInvoke(st *BState, in ssa.Instruction, c *ssa.CallCommon, v ssa.
 			g.tuples[v] = rterms
 		}
 	}
+}
+
+// joinedRecord: after the case split of an interface or function-value call, the label of the call (and any
+// `bind` on it) denotes the call as a whole: the results shared by all cases, the heap before the split and
+// the heap after it -- not the record of whichever candidate happened to be processed last.
+func (g *Gen) joinedRecord(st *BState, nBefore int, callee string, pre Heap, rterms []string, sig *types.Signature) {
+	if len(g.calls) <= nBefore {
+		return
+	}
+	last := g.calls[len(g.calls)-1]
+	var tys []types.Type
+	for i := 0; i < sig.Results().Len(); i++ {
+		tys = append(tys, sig.Results().At(i).Type())
+	}
+	g.calls = append(g.calls, &callRecord{callee: callee, n: last.n, pre: pre, post: st.heap.clone(), results: rterms, resTypes: tys, pcAfter: st.pc, args: last.args})
 }
 
 // synthValue is a placeholder ssa.Value for receivers/results synthesised by the generator.
